@@ -58,4 +58,22 @@ theorem no_transport_progress_under_streams_lock :
 
 example : noTransportWhileLocked 0 [0, 2, 1] = false := by decide   -- what the theorem rules out
 
+/-- is the first lock guard (0) of a function created only after the message's extensions were cleared (3)? -/
+def clearedBeforeLock : List Nat → Bool
+  | [] => true
+  | 3 :: _ => true
+  | 0 :: _ => false
+  | _ :: r => clearedBeforeLock r
+
+/-- **No destructor of the application runs under the streams lock**: every function of
+    `proto/streams/streams.rs` that is handed a request or response by value and takes the lock clears the
+    message's extensions BEFORE it creates its first guard (events regenerated from the source on every run).
+    An extension may be the last owner of a handle of this very connection; its `Drop` takes the same lock —
+    under the lock that is a self-deadlock of the calling thread, and with it of every other handle. -/
+theorem user_extensions_dropped_before_the_lock :
+    H2V.Generated.LockScopes.userMessageFns.all (fun f => clearedBeforeLock f.2) = true := by decide
+
+example : clearedBeforeLock [0, 3] = false := by decide   -- what the theorem rules out
+example : H2V.Generated.LockScopes.userMessageFns.length ≥ 3 := by decide
+
 end H2V.Props.C20
